@@ -390,10 +390,10 @@ theorem groups_keyed {β : Type} (l : List (Int × β)) :
   | nil => simp [groups]
   | cons p rest => obtain ⟨i, x⟩ := p; simp [groups, groupsGo_keyed]
 
-/-! ### closed forms of the per-group fold over an ordered field -/
-section field
+/-! ### facts about the per-group fold that need no arithmetic law (any carrier, floating point included) -/
+section anyc
 set_option linter.unusedSectionVars false
-variable {α : Type} [Field α] [LinearOrder α] [IsStrictOrderedRing α]
+variable {α : Type} [Add α] [Div α] [LT α] [DecidableLT α] [OfNat α 0] [NatCast α]
 
 theorem vals_concat (g : List (Option α)) (x : Option α) : vals (g ++ [x]) = vals g ++ x.toList := by
   cases x <;> simp [vals, List.filterMap_append]
@@ -417,13 +417,6 @@ theorem accOf_nagg (op : Int) (g : List (Option α)) : (accOf op g).nagg = (vals
     rw [accOf_concat, vals_concat, List.length_append, ← ih]
     cases x <;> simp only [accStep] <;> (repeat' split) <;> simp
 
-theorem accOf_sum (op : Int) (hop : op ≤ 1) (g : List (Option α)) : (accOf op g).agg = (vals g).sum := by
-  induction g using List.reverseRecOn with
-  | nil => simp [accOf, Acc.init, vals]
-  | append_singleton g x ih =>
-    rw [accOf_concat, vals_concat, List.sum_append, ← ih]
-    cases x <;> simp [accStep, hop]
-
 theorem accOf_last (g : List (Option α)) : (accOf 3 g).agg = (vals g).getLast?.getD 0 := by
   induction g using List.reverseRecOn with
   | nil => simp [accOf, Acc.init, vals]
@@ -432,6 +425,20 @@ theorem accOf_last (g : List (Option α)) : (accOf 3 g).agg = (vals g).getLast?.
     cases x with
     | none => simpa [accStep] using ih
     | some v => simp [accStep]
+
+end anyc
+
+/-! ### closed forms of the per-group fold over an ordered field -/
+section field
+set_option linter.unusedSectionVars false
+variable {α : Type} [Field α] [LinearOrder α] [IsStrictOrderedRing α]
+
+theorem accOf_sum (op : Int) (hop : op ≤ 1) (g : List (Option α)) : (accOf op g).agg = (vals g).sum := by
+  induction g using List.reverseRecOn with
+  | nil => simp [accOf, Acc.init, vals]
+  | append_singleton g x ih =>
+    rw [accOf_concat, vals_concat, List.sum_append, ← ih]
+    cases x <;> simp [accStep, hop]
 
 theorem accOf_max (g : List (Option α)) : (accOf 2 g).agg = ((vals g).maximum).unbotD 0 := by
   induction g using List.reverseRecOn with
@@ -512,6 +519,19 @@ theorem sum_flatMap {β : Type} (f : β → List α) (l : List β) :
   | cons b t ih => simp [List.flatMap_cons, List.sum_append, ih]
 
 end field
+
+/-! ### time stamps (compute_aggindex) -/
+
+/-- a time stamp pandas can hold: month 1..12, day 1..31, hour 0..23 -/
+def Stamp.valid (t : Stamp) : Prop := 1 ≤ t.m ∧ t.m ≤ 12 ∧ 1 ≤ t.d ∧ t.d ≤ 31 ∧ t.h ≤ 23
+
+instance (t : Stamp) : Decidable t.valid := by unfold Stamp.valid; infer_instance
+
+/-- chronological order on (year, month, day, hour), lexicographic -/
+def Stamp.le (a b : Stamp) : Prop :=
+  a.y < b.y ∨ (a.y = b.y ∧ (a.m < b.m ∨ (a.m = b.m ∧ (a.d < b.d ∨ (a.d = b.d ∧ a.h ≤ b.h)))))
+
+instance (a b : Stamp) : Decidable (Stamp.le a b) := by unfold Stamp.le; infer_instance
 
 /-! ### calendar and monthly2daily helpers -/
 
